@@ -12,14 +12,28 @@ Numeric streams (|impl - model| <= 1e-9 * scale, angles compared modulo 360 degr
   mv    rbmove          rbc   rbcoords
   rbe3  formrbe3: weights, component selections (also non-ascending digits), Ind_List not in uset order, and the
         UM_List kinds indep / dep / mixed / first-ind / first-dep / wrong size (shape and ValueError compared exactly)
+  rbe3w formrbe3 from its own arguments: the model `formrbe3W` (Model/CoordRbe3Wrap.lean) gets GRID_dep, DOF_dep, the
+        Ind_List groups (component number, optional weight, scalar / list ids in every accepted Python form) and the
+        UM_List pairs as they are, plus the ids of the table rows (tables with scalar points, q-set grids and grids that
+        take no part); kinds: plain, the UM_List kinds, DOF that are not rows of the table (dropped), a scalar point as
+        independent DOF / a digit > 6 / a wrong m-set size (raise), a digit 0 in DOF_dep (Python's index -1)
   rep   replace_basic_cs (both call forms)
+  axis worlds (signed-permutation transforms, integer points; tolerance 1e-12 * scale, angles compared, nothing
+        skipped): grids exactly on the polar axis of a cylindrical / spherical system, at its origin, and at azimuths
+        of exactly 0 / 90 / 180 / 270 degrees, through loc / get / rb / mv / rbc / rep
 Exact streams (ids, levels, error kind and payload, key order; numbers of the resolved systems to 1e-9):
-  bc    build_coords on shuffled cards: valid trees, equal / unequal duplicates, missing / self / circular references
+  bc    build_coords on shuffled cards: valid trees, chains 3..8 deep whose ids decrease / increase / alternate along
+        the chain, 17..24 cards, equal / unequal duplicates, missing (also under a deep chain) / self / circular references
   mk    mkusetcoordinfo(card, None, coordref) card by card with one dictionary (known id, new id, ValueError)
 on random worlds: chains of up to 5 CORD2R/C/S systems of all type mixes, grids entered in any system with any
 output system, scalar points and q-set grids mixed in.
 
-The oracle (`search`) restates the property on the public API only, with its own numpy geometry.
+Translator: harness/translate/c14_coordconsts.py reads the fix-up thresholds (1e-8), the characteristic-length
+threshold (1e-12), the degree conversions (180) and the largest component (6) from n2p.py with `ast` and regenerates
+lean/PyYetiVerif/Generated/CoordConsts.lean, which the model uses.
+
+The oracle (`search`) restates the property on the public API only, with its own numpy geometry (and exact rational
+arithmetic for the rows at quarter turns / on the polar axis).
 """
 import json
 import math
@@ -64,31 +78,46 @@ TRUSTED = [
     "about formrbe3 hold for every exact solver (`ExactSolve`)",
     "ℝ instance of TransOps: atan2 y x := Complex.arg (x + i y); theorems are over ℝ (the formrbe3 algebra over any "
     "field), not over doubles",
-    "uset set/DOF bookkeeping (mksetpv, mkdofpv, expanddof) is property C18's subject; here DOF are identified by "
-    "their uset row (computed by the harness) and mat_intersect / index2bool / flippv are modelled by `umPlan`",
+    "uset set/DOF bookkeeping (mksetpv, mkdofpv) is property C18's subject; in the rbe3 stream DOF are identified by "
+    "their uset row (computed by the harness), in the rbe3w stream the model does the expansion (`expandDof`), the row "
+    "look-up (`rowOf`) and the sorting (`sortByRow`) itself; mat_intersect / index2bool / flippv are modelled by "
+    "`positions` / `umPlan`",
+    "translator harness/translate/c14_coordconsts.py (Python ast; thresholds must be negative powers of ten)",
 ]
 RULE = (
     "a case is one (world, operation): world = chain of 0..5 CORD2R/C/S systems (random reference structure, "
     "depth <= 5, all type mixes) + 2..8 uset entries (grids entered in any system with any output system, "
-    "scalar points, q-set grids, per-DOF set strings), operation in cs/loc/get/rb/mv/rbc/rbe3/rep; or one set of "
-    "cards for bc/mk (1..7 cards + duplicates / missing / circular references, shuffled); non-trivial = "
+    "scalar points, q-set grids, per-DOF set strings), operation in cs/loc/get/rb/mv/rbc/rbe3/rbe3w/rep (rbe3w: the "
+    "table also holds scalar points, q-set grids and grids that take no part; axis worlds: signed-permutation "
+    "transforms, integer points, grids exactly on the polar axis / at the origin / at azimuths k*90 deg); or one set of "
+    "cards for bc/mk (1..24 cards: random trees, chains 3..8 deep with decreasing / increasing / alternating ids, "
+    "duplicates / missing / circular references, shuffled); non-trivial = "
     "the world has at least one cylindrical or spherical system or a chain of depth >= 2 involved in the "
-    "operation (every rbe3, bc, mk case counts); distinct by the world's numbers and the operation's parameters"
+    "operation (every rbe3, rbe3w, bc, mk case counts); distinct by the world's numbers and the operation's parameters"
 )
 ASSUMPTIONS = [
     "grids are kept away from the polar singularities (rho >= 0.1 in every cylindrical/spherical system they are "
-    "expressed in), A-B-C points are non-collinear (sin of the angle > 0.2)",
+    "expressed in) except in the axis worlds, where a grid is exactly on the axis (rho == 0 in exact arithmetic: "
+    "signed-permutation transforms, integer points) or at least 1 away from it; A-B-C points are non-collinear (sin of "
+    "the angle > 0.2)",
+    "the independent DOF named by Ind_List are distinct and the m-set DOF named by UM_List are distinct (of equal "
+    "rows numpy's unstable argsort decides which copy stays; the model keeps the first)",
     "formrbe3 cases have cond(rb' W rb) <= 1e6 (<= 1e4 with a UM_List, and the block formrbe3 inverts for the "
     "UM_List has cond <= 1e2); worse-conditioned ones are skipped and counted",
     "coordinate-system ids are positive (a card with id 0 would redefine the basic system; the real loop need not "
     "terminate then and the model answers `diverges`)",
 ]
 PARTIAL = (
-    "partial: the list-level wrapper formRbe3 (sorting Ind_List / UM_List into uset order, conversion of the DOF "
-    "lists into index maps) around rbe3Grid / umPlan / umApplyMx is tied by the correspondence only; that a "
-    "well-founded set of cards always resolves (build_coords succeeds) is correspondence-only; the rbe3 theorems "
-    "assume an exact linear solver and, for a UM_List, that the block the taken branch inverts is invertible; all "
-    "geometry theorems are over the reals (round-off is measured by the correspondence, never proved)"
+    "partial: the rbe3 theorems assume an exact linear solver and, for a UM_List, that the block the taken branch "
+    "inverts is invertible; formrbe3_weights_scale_invariant / formrbe3_rigid_body_exact need positive weights and "
+    "independent rows of full column rank; the packaging theorems (formrbe3_row_order, formrbe3_sorted_is_perm) need "
+    "distinct independent DOF (duplicates are outside the modelled domain); build_coords theorems assume positive "
+    "ids (a card with id 0 redefines the basic system: the model answers `diverges`) and say nothing about the order "
+    "of the dictionary *within* one level (numpy's argsort is not stable above 16 cards; the correspondence compares "
+    "the level order only); all geometry theorems are over the reals: at the polar axis the real atan2(0, 0) = 0 while "
+    "the floating-point atan2 of signed zeros may answer +-180 (the same point; measured exactly by the axis worlds), "
+    "and the exact values at azimuths k*90 deg are reproduced by the code to 1e-12 (measured), not bit for bit; "
+    "round-off in general is measured by the correspondence, never proved"
 )
 MANIFEST = {
     "level_text": "Proof (Lean 4, Mathlib, standard axioms) about polymorphic models of n2p's coordinate and "
@@ -107,16 +136,34 @@ MANIFEST = {
     "(rbe3_um_any; the branch is determined by where the m-set DOF lie, as repaired by 959e8e9); build_coords "
     "does not depend on the order of the cards, refuses reference cycles / undefined references / unequal "
     "duplicates, and every entry of its dictionary is the A-B-C construction of its card relative to the entry of "
-    "the card's reference. The same definitions run at Float and are compared (numbers to 1e-9, ids / levels / "
+    "the card's reference; build_coords as a whole (id sort, duplicate handling, the level loop with ref_ids = the "
+    "systems resolved in the last pass, argsort by level): it returns a dictionary iff equal-id cards are equal and "
+    "every reference chain ends in 0 (positive ids), otherwise the named error (the 'Could not resolve' message "
+    "carries the ids of the deepest level that did resolve); the level of a card is the length of its reference "
+    "chain; every card is handed to mkusetcoordinfo after the card of its reference system for any ids and depth; "
+    "the result depends only on the set of cards (order, equal duplicates); formrbe3's list packaging (expanddof on "
+    "Ind_List / UM_List / DOF_dep, look-up of uset rows, DOF outside the table dropped, sort into uset order, "
+    "partition of the table): without UM_List the result is rbe3Grid on the strictly row-sorted permutation of the "
+    "named independent DOF with rows in DOF_dep digit order; the result does not depend on the order in which "
+    "Ind_List (groups, ids) and UM_List name the DOF; a common positive factor on all weights changes nothing; the "
+    "returned matrix times the rbgeom_uset rows of the independent DOF (any reference point) is the rows of the "
+    "dependent DOF; forward∘inverse of cylindrical / spherical coordinates is the identity at every point including "
+    "the polar axis and the origin (getcoordinates reports azimuth 0 there, polar angle 0 | 180), so querying a point "
+    "in a system and entering it again gives the same point everywhere; on the axis rbgeom_uset uses the frame of "
+    "those reported angles; at azimuths of exactly 0 / 90 / 180 / 270 deg the rbgeom_uset rows are (Q·Tᵀ)·[I, "
+    "−(p−ref)×; 0, I] with Q a signed permutation matrix. The thresholds (1e-8, 1e-12), the degree conversion and the "
+    "component range are read from n2p.py by a translator on every run. The same definitions run at Float and are compared (numbers to 1e-9, ids / levels / "
     "errors / shapes exactly) with addgrid, getcoordinates, build_coords, mkusetcoordinfo, mkcordcardinfo, "
-    "rbgeom_uset, rbgeom, rbmove, rbcoords, formrbe3 (all UM_List kinds) and replace_basic_cs on random chains of "
-    "all type mixes with scalar points and q-set grids, including azimuths exactly on the branch boundaries.",
+    "rbgeom_uset, rbgeom, rbmove, rbcoords, formrbe3 (all UM_List kinds; also from its raw arguments in every accepted "
+    "Python form, with DOF outside the table, scalar points, wrong digits, wrong m-set size) and replace_basic_cs on "
+    "random chains of all type mixes with scalar points and q-set grids, including azimuths exactly on the branch "
+    "boundaries, grids exactly on the polar axis (1e-12) and card sets up to 24 with chains 8 deep.",
     "level_note": "Trusted: Lean kernel; propext, Classical.choice, Quot.sound; the Python harness; libm/LAPACK "
-    "agreement with the Float model is measured. That build_coords succeeds on every well-founded card set, "
-    "and formRbe3's list-level wrapper (sorting into uset order) are correspondence-only. Polar singularities are excluded by the "
-    "property.",
+    "agreement with the Float model is measured. Exact solver / invertible UM block / full column rank / distinct "
+    "DOF / positive ids are hypotheses. Floating-point behaviour at the polar axis (signed zeros in atan2) and the "
+    "1e-12 agreement with the exact quarter-turn values are measured by the axis worlds, not proved.",
     "technique": "Lean 4 proof over ℝ / any field of polymorphic executable models + numeric and exact differential "
-    "correspondence at Float",
+    "correspondence at Float + ast translator for the constants",
 }
 
 TOL = 1e-9
